@@ -211,11 +211,25 @@ func (v *FnView) Leaves(val ssa.Value, depth int) map[string]bool {
 				}
 			}
 		case *ssa.Alloc:
-			for _, ref := range *y.Referrers() {
-				if st, ok := ref.(*ssa.Store); ok && st.Addr == y {
-					walk(st.Val)
+			var refs func(a ssa.Value, d int)
+			refs = func(a ssa.Value, d int) {
+				if d > 3 || a.Referrers() == nil {
+					return
+				}
+				for _, ref := range *a.Referrers() {
+					switch r := ref.(type) {
+					case *ssa.Store:
+						if r.Addr == a {
+							walk(r.Val)
+						}
+					case *ssa.IndexAddr:
+						refs(r, d+1)
+					case *ssa.FieldAddr:
+						refs(r, d+1)
+					}
 				}
 			}
+			refs(y, 0)
 		}
 		if in, ok := x.(ssa.Instruction); ok {
 			for _, op := range in.Operands(nil) {
